@@ -3,10 +3,14 @@ mod c42a;
 mod c42b;
 mod c42known;
 mod c42ref;
+mod c43a;
+mod c43b;
 
 fn main() {
     vf_kit::dispatch! {
         "c42a" => c42a::C42a,
         "c42b" => c42b::C42b,
+        "c43a" => c43a::C43a,
+        "c43b" => c43b::C43b,
     }
 }
